@@ -84,19 +84,11 @@ func (b *payPerInterval) OnUpdate(node store.Node, peers []store.Node) (store.Ba
 
 	total := new(big.Int)
 	for _, peer := range peers {
-		b.Store.AddNodeBalance(peer.ID, credit)
-		total.Add(total, credit)
-	}
-
-	// If this comparison is in the wrong place, it could make the pool
-	// insolvent. On the other hand, if we compare too early, then the client
-	// could get into a loop where it disconnects due to low balance, connects
-	// successfully, repeat.
-	if b.MinBalance != nil && b.MinBalance.Cmp(total) > 0 {
-		return store.Balance{}, LowBalanceError{
-			CurrentBalance: total,
-			MinBalance:     b.MinBalance,
+		if err := b.Store.AddNodeBalance(peer.ID, credit); err != nil {
+			// Only debit the client for credit that was actually granted.
+			continue
 		}
+		total.Add(total, credit)
 	}
 
 	if err := b.Store.AddNodeBalance(node.ID, new(big.Int).Neg(total)); err != nil {
@@ -107,5 +99,18 @@ func (b *payPerInterval) OnUpdate(node store.Node, peers []store.Node) (store.Ba
 		return balance, err
 	}
 
-	return b.Store.GetNodeBalance(node.ID)
+	// The charge is applied before the minimum is checked, otherwise the hosts
+	// would be credited out of nothing. The client is compared by (and told)
+	// its actual spendable balance, the same value OnClient checks on connect.
+	if b.MinBalance != nil {
+		spendable := new(big.Int).Add(&balance.Credit, &balance.Deposit)
+		if b.MinBalance.Cmp(spendable) > 0 {
+			return store.Balance{}, LowBalanceError{
+				CurrentBalance: spendable,
+				MinBalance:     b.MinBalance,
+			}
+		}
+	}
+
+	return balance, nil
 }
